@@ -10,14 +10,14 @@ TU, TP, TS, TC = ('torchclifford/utils.py', 'torchclifford/paulialg.py', 'torchc
 CASES = []
 
 
-def M(id, props, file, old, new, rules=None):
+def M(id, props, file, old, new, rules=None, scope=None):
     CASES.append({'id': id, 'props': props if isinstance(props, list) else [props],
-                  'edits': [(file, old, new)], 'kind': 'mutant', 'rules': rules})
+                  'edits': [(file, old, new, scope)], 'kind': 'mutant', 'rules': rules})
 
 
-def B(id, props, file, old, new):
+def B(id, props, file, old, new, scope=None):
     CASES.append({'id': id, 'props': props if isinstance(props, list) else [props],
-                  'edits': [(file, old, new)], 'kind': 'benign'})
+                  'edits': [(file, old, new, scope)], 'kind': 'benign'})
 
 
 # ------------------------------------------------------------------ C01
@@ -123,3 +123,36 @@ M('c04-inverse-inplace', ['C04', 'C17'], PS, '        gs_inv = z2inv(self.gs)\n'
 M('c04-inverse-return', ['C04'], PS, '        return CliffordMap(gs_inv, ps_inv)', '        return CliffordMap(gs_inv, ps_mis)', ['R2'])
 M('c04-identity', ['C04'], PS, '    gs = numpy.eye(2*N, dtype=numpy.int_)\n    return CliffordMap(gs)', '    gs = numpy.eye(2*N, dtype=numpy.int_)\n    return CliffordMap(gs, 2*numpy.ones(2*N, dtype=numpy.int_))', ['R12.identity'])
 M('c04-tc-compose-alias', ['C04'], TS, '        gs, ps = pauli_transform(self.gs, self.ps, other.gs, other.ps)\n        return CliffordMap(gs, ps)', '        gs, ps = pauli_transform(self.gs, self.ps, other.gs, other.ps)\n        return CliffordMap(gs, other.ps)', ['R4a', 'R2'])
+
+# ------------------------------------------------------------------ C06  (anchors inside stabilizer_measure: unique by the
+# surrounding text of the measurement kernel)
+MEAS_HEAD = "    out = numpy.empty(L, dtype=numpy.int_)\n    ga = numpy.empty(2*N, dtype=numpy.int_) # workspace for stabilizer accumulation\n    pa = 0 # workspace for phase accumulation\n    log2prob = 0.\n"
+M('c06-drop-r', ['C06'], PS, '        self.gs, self.ps, self.r, out, log2prob = stabilizer_measure(\n            self.gs, self.ps, obs.gs, obs.ps, self.r)', '        self.gs, self.ps, _, out, log2prob = stabilizer_measure(\n            self.gs, self.ps, obs.gs, obs.ps, self.r)', ['R5'])
+M('c06-log2prob', ['C06'], PU, '            log2prob -= 1.\n', '            log2prob -= 0.\n', ['R11.coin'])
+M('c06-log2prob-del', ['C06'], PU, "            out[k] = ((ps_stb[p] - ps_obs[k])%4)//2 #0->0(+1 eigenvalue), 2->1(-1 eigenvalue)\n            log2prob -= 1.\n", "            out[k] = ((ps_stb[p] - ps_obs[k])%4)//2 #0->0(+1 eigenvalue), 2->1(-1 eigenvalue)\n", ['R11.coin'])
+M('c06-coin3', ['C06', 'C16'], PU, '            ps_stb[p] = 2 * numpy.random.randint(2)', '            ps_stb[p] = 2 * numpy.random.randint(3)', ['R15', 'R11'])
+M('c06-coin-bit', ['C06', 'C05'], PU, '            ps_stb[p] = 2 * numpy.random.randint(2)', '            ps_stb[p] = numpy.random.randint(2)', ['R3a', 'R11'])
+M('c06-decode', ['C06'], PU, "            out[k] = ((ps_stb[p] - ps_obs[k])%4)//2 #0->0", "            out[k] = ((ps_stb[p] - ps_obs[k])%4) #0->0", ['R3.decode'])
+M('c06-decode-det', ['C06'], PU, "            assert((ga == gs_obs[k]).all())\n            out[k] = ((pa - ps_obs[k])%4)//2\n    return gs_stb, ps_stb, r, out, log2prob", "            assert((ga == gs_obs[k]).all())\n            out[k] = ((pa + ps_obs[k] + 2)%4)//2\n    return gs_stb, ps_stb, r, out, log2prob", ['R3.decode'])
+M('c06-decode-k', ['C06'], PU, "            assert((ga == gs_obs[k]).all())\n            out[k] = ((pa - ps_obs[k])%4)//2\n    return gs_stb, ps_stb, r, out, log2prob", "            assert((ga == gs_obs[k]).all())\n            out[k] = ((pa - ps_obs[0])%4)//2\n    return gs_stb, ps_stb, r, out, log2prob", ['R3.decode'])
+M('c06-measure-args', ['C06'], PS, '            self.gs, self.ps, obs.gs, obs.ps, self.r)\n        return out, log2prob', '            self.gs, self.ps, obs.gs, self.ps, self.r)\n        return out, log2prob', ['R2'])
+M('c06-tc-drop-r', ['C06'], TS, '        self.gs, self.ps, self.r, out, log2prob = stabilizer_measure(', '        self.gs, self.ps, r, out, log2prob = stabilizer_measure(', ['R5'])
+
+SM = 'stabilizer_measure'
+M('c06-pivot-guard', ['C06', 'C05'], PU, 'if j < N + r: # if gs_stb[j] is not an active destabilizer', 'if j < N: # if gs_stb[j] is not an active destabilizer', ['R9.pivot'], SM)
+M('c06-pivot-guard-le', ['C06', 'C05'], PU, 'if j < N + r: # if gs_stb[j] is not an active destabilizer', 'if j <= N + r: # if gs_stb[j] is not an active destabilizer', ['R9'], SM)
+M('c06-extend-guard', ['C06', 'C05'], PU, 'if not r <= j < N: # if gs_stb[j] is a standby operator', 'if not r < j < N: # if gs_stb[j] is a standby operator', ['R9.extend'], SM)
+M('c06-phase-guard', ['C06', 'C05'], PU, 'if j < N: # if gs_stb[j] is a stablizer, phase matters', 'if j < r: # if gs_stb[j] is a stablizer, phase matters', ['R9.phase'], SM)
+M('c06-accum-row', ['C06'], PU, 'ga = (ga + gs_stb[j-N])%2', 'ga = (ga + gs_stb[j])%2', ['R9.accum', 'R7'], SM)
+M('c06-r-dec', ['C06', 'C05'], PU, '                r -= 1 # rank will reduce under extension\n', '                pass\n', ['R9.block'], SM)
+M('c06-order', ['C06', 'C05'], PU, '            gs_stb[q] = gs_stb[p] # move gs_stb[p] to gs_stb[q]\n            gs_stb[p] = gs_obs[k] # add gs_obs[k] to gs_stb[p]', '            gs_stb[p] = gs_obs[k] # add gs_obs[k] to gs_stb[p]\n            gs_stb[q] = gs_stb[p] # move gs_stb[p] to gs_stb[q]', ['R9.block'], SM)
+M('c06-partner', ['C06', 'C05'], PU, 'q = (p+N)%(2*N) # get q as dual of p ', 'q = (p+N)%(2*N-1) # get q as dual of p ', ['R9.block'], SM)
+M('c06-p-eq-r', ['C06', 'C05'], PU, '# swap q,s\n                p = r', '# swap q,s', ['R9.block'], SM)
+M('c06-swap-view', ['C06', 'C05'], PU, 'gs_stb[numpy.array([p,q])] = gs_stb[numpy.array([q,p])] # swap p,q', 'gs_stb[p], gs_stb[q] = gs_stb[q], gs_stb[p] # swap p,q', ['R9.block'], SM)
+M('c06-swap-missing', ['C06', 'C05'], PU, '                    gs_stb[numpy.array([q,s])] = gs_stb[numpy.array([s,q])] # swap q,s\n', '', ['R9.block'], SM)
+M('c06-row-phase-gone', ['C06'], PU, 'ps_stb[j] = (ps_stb[j] + ps_stb[p] + ipow(gs_stb[j], gs_stb[p]))%4', 'pass', ['R7a'], SM)
+M('c06-det-writes', ['C06'], PU, '            assert((ga == gs_obs[k]).all())\n', '            assert((ga == gs_obs[k]).all())\n            log2prob -= 1.\n', ['R11.coin'], SM)
+B('c06-benign-guard', ['C06', 'C05'], PU, 'if j < N + r: # if gs_stb[j] is not an active destabilizer', 'if not j >= N + r: # if gs_stb[j] is not an active destabilizer', SM)
+B('c06-benign-guard2', ['C06', 'C05'], PU, 'if j < N + r: # if gs_stb[j] is not an active destabilizer', 'if N + r > j: # if gs_stb[j] is not an active destabilizer', SM)
+B('c06-benign-extend', ['C06', 'C05'], PU, 'if not r <= j < N: # if gs_stb[j] is a standby operator', 'if j < r or j >= N: # if gs_stb[j] is a standby operator', SM)
+B('c06-benign-partner', ['C06', 'C05'], PU, 'q = (p+N)%(2*N) # get q as dual of p ', 'q = p + N if p < N else p - N # get q as dual of p ', SM)
